@@ -64,13 +64,16 @@ pub fn parse_format_string_parameters(
     // - `[\.]?\d*` matches the precision parameter (for printf-like functions)
     // - `[cCdiouxXeEfFgGaAnpsS]` matches a format specifier without length parameter.
     // - `hi|hd|hu|li|ld|lu|lli|lld|llu|lf|lg|le|la|lF|lG|lE|lA|Lf|Lg|Le|La|LF|LG|LE|LA` matches format specifiers with length parameter.
-    let re = Regex::new(r"%[+\-#0]{0,1}\d*[\.]?\d*([cCdiouxXeEfFgGaAnpsS]|hi|hd|hu|li|ld|lu|lli|lld|llu|lf|lg|le|la|lF|lG|lE|lA|Lf|Lg|Le|La|LF|LG|LE|LA)")
+    // - `%%` is an escaped percent sign. It is matched first, so that it consumes both characters,
+    //   but it does not contain a format specifier (i.e. no capture group) and thus no parameter.
+    let re = Regex::new(r"%%|%[+\-#0]{0,1}\d*[\.]?\d*([cCdiouxXeEfFgGaAnpsS]|hi|hd|hu|li|ld|lu|lli|lld|llu|lf|lg|le|la|lF|lG|lE|lA|Lf|Lg|Le|La|LF|LG|LE|LA)")
         .expect("No valid regex!");
 
     let datatype_map: Vec<(Datatype, ByteSize)> = re
         .captures_iter(format_string)
-        .map(|cap| {
-            let data_type = Datatype::from(cap[1].to_string());
+        .filter_map(|cap| cap.get(1).map(|specifier| specifier.as_str().to_string()))
+        .map(|specifier| {
+            let data_type = Datatype::from(specifier);
             let size = {
                 // Considers argument promotion for char type
                 if matches!(data_type, Datatype::Char) {
